@@ -614,6 +614,9 @@ func runFlash(e *ev.Env) {
 	script("printable-level", &flashSpec{msgs: []fmsg{{Key: "status", Value: "saved", Level: 'A'}}, noLevel: []bool{false}}, getA)
 	script("value-with-semicolon", &flashSpec{msgs: []fmsg{{Key: "status", Value: "a;b", Level: 'A'}}, noLevel: []bool{false}}, getA)
 	script("value-59-bytes", &flashSpec{msgs: []fmsg{{Key: "status", Value: strings.Repeat("v", 59), Level: 'A'}}, noLevel: []bool{false}}, getA)
+	script("last-message-level-32", &flashSpec{msgs: []fmsg{{Key: "warn", Value: "quota", Level: '@'}, {Key: "notice", Value: "saved", Level: 32}}, noLevel: []bool{false, false}}, getA)
+	script("last-message-ends-in-blank", &flashSpec{msgs: []fmsg{{Key: "notice", Value: "Saved.", Level: 'A'}, {Key: "hint", Value: "Type a name: ", Level: 'B'}}, noLevel: []bool{false, false}}, getA)
+	script("last-message-ends-in-blank-default-level", &flashSpec{msgs: []fmsg{{Key: "hint", Value: "Type a name: "}}, noLevel: []bool{true}}, getA)
 	script("level-10", &flashSpec{msgs: []fmsg{{Key: "status", Value: "saved", Level: 10}}, noLevel: []bool{false}}, getA)
 	script("duplicate-key", &flashSpec{msgs: []fmsg{{Key: "k", Value: "first", Level: 'A'}, {Key: "k", Value: "second", Level: 'B'}}, noLevel: []bool{false, false}}, getA)
 	script("with-input-query", &flashSpec{withInput: true}, []byte("GET /a?name=John HTTP/1.1\r\nHost: flash.example.com\r\n\r\n"))
@@ -672,6 +675,29 @@ func runFlash(e *ev.Env) {
 			spec.msgs = append(spec.msgs, m)
 			spec.noLevel = append(spec.noLevel, !wireSafe && r.Chance(1, 4))
 		}
+		if n > 0 && r.Chance(1, 4) {
+			// the message attached last has a text ending in SP / HTAB, or level 32 / 9, the
+			// default level given or omitted: whatever the layout, these are the bytes most
+			// likely to end the cookie value
+			m := &spec.msgs[n-1]
+			for used := true; used; { // a key of its own: it must stay the last one
+				m.Key = safeBytes(r, r.Range(1, 10))
+				used = false
+				for _, o := range spec.msgs[:n-1] {
+					used = used || o.Key == m.Key
+				}
+			}
+			switch r.Intn(4) {
+			case 0:
+				m.Value, m.Level, spec.noLevel[n-1] = safeBytes(r, r.Range(0, 20))+gen.Pick(r, []string{" ", "\t", "  ", " \t"}), 0, true
+			case 1:
+				m.Value, m.Level, spec.noLevel[n-1] = safeBytes(r, r.Range(0, 20))+gen.Pick(r, []string{" ", "\t"}), 0, false
+			case 2:
+				m.Value, m.Level, spec.noLevel[n-1] = safeBytes(r, r.Range(0, 20)), 32, false
+			default:
+				m.Value, m.Level, spec.noLevel[n-1] = safeBytes(r, r.Range(0, 20)), 9, false
+			}
+		}
 		spec.pathA, spec.pathB = gen.Pick(r, flashPathsA), gen.Pick(r, flashPathsB)
 		spec.status = gen.Pick(r, []int{0, 0, 301, 302, 303, 307, 308})
 		spec.kind = gen.Pick(r, []string{"", "", "route", "route-params", "back-referer", "back-fallback"})
@@ -683,7 +709,7 @@ func runFlash(e *ev.Env) {
 		}
 		spec.bMode = gen.Pick(r, []string{"", "", "", "error", "error-handler-fails", "panic-recovered"})
 		reqA := []byte("GET " + spec.pathA + " HTTP/1.1\r\nHost: flash.example.com\r\n\r\n")
-		if !wireSafe && r.Chance(1, 2) {
+		if (!wireSafe && r.Chance(1, 2)) || (wireSafe && r.Chance(1, 8)) {
 			spec.withInput = true
 			spec.inputFirst = r.Bool()
 			// in a share of the scripts a submitted field has the name of a message key
@@ -975,8 +1001,16 @@ func k1(e *ev.Env, c *ev.Case, detail map[string]any, class, what string) {
 	for k, v := range detail {
 		d[k] = v
 	}
-	e.Stat("k1_"+class, 1)
-	e.Violation(c, sigK1, what, d)
+	cause, step, _ := strings.Cut(class, "@")
+	if cause == "" {
+		cause = "unclassified"
+	}
+	d["class"], d["step"] = cause, step
+	e.Stat("k1_"+cause, 1)
+	if step != "" {
+		e.Stat("k1_step_"+step, 1)
+	}
+	e.Violation(c, sigK1+"|"+cause, what, d)
 }
 
 // rawBytesClass names what in the bytes of an encoding keeps it from travelling as a cookie value
@@ -1008,18 +1042,26 @@ func scrubRisk(want []fmsg, old map[string]string) bool {
 	return false
 }
 
+// rawBytesClass names the obstacle in the issued bytes that keeps them from travelling as a cookie
+// value and coming back unchanged ("" when there is none). Fixed priority order; bytes >= 0x80 and
+// ',' are no obstacle for a user agent (RFC 6265 5.2) nor for fasthttp.
 func rawBytesClass(enc []byte) string {
+	n := len(enc)
 	switch {
 	case bytes.IndexByte(enc, '\n') >= 0 || bytes.IndexByte(enc, '\r') >= 0:
-		return "line-break-bytes" // replaced by SP by the header scrubbing (cut by a client before that fix)
+		return "line-break" // (only a tree without the header scrubbing lets them through)
 	case bytes.IndexByte(enc, 0) >= 0:
-		return "nul-byte"
+		return "nul"
 	case hasCTL(enc):
-		return "control-bytes"
+		return "control-byte"
 	case bytes.IndexByte(enc, ';') >= 0:
-		return "cut-at-semicolon"
-	case !bytes.Equal(serverView(enc), enc), !bytes.Equal(bytes.Trim(enc, " \t"), enc):
-		return "trimmed-by-cookie-syntax"
+		return "semicolon"
+	case n > 0 && (enc[0] == ' ' || enc[0] == '\t'):
+		return "leading-whitespace"
+	case n > 0 && (enc[n-1] == ' ' || enc[n-1] == '\t'):
+		return "trailing-whitespace"
+	case n > 1 && enc[0] == '"' && enc[n-1] == '"':
+		return "dquote-wrapped"
 	}
 	return ""
 }
@@ -1090,7 +1132,7 @@ func flashScript(e *ev.Env, c *ev.Case, spec *flashSpec, reqA []byte) {
 	// k1Class: what in the bytes actually issued keeps the cookie from travelling as it is
 	k1Class := func() string {
 		if scrub {
-			return "line-break-bytes"
+			return "line-break"
 		}
 		if haveIssued {
 			return rawBytesClass(issued)
@@ -1115,9 +1157,9 @@ func flashScript(e *ev.Env, c *ev.Case, spec *flashSpec, reqA []byte) {
 		} else if strings.HasPrefix(site, "set-cookie") || k1Class() != "" {
 			cls := k1Class()
 			if cls == "" {
-				cls = perr.Class
+				cls = "unclassified-" + perr.Class
 			}
-			k1(e, c, detail, cls, "response of the redirecting handler is rejected by a strict client: "+perr.Error())
+			k1(e, c, detail, cls+"@set-cookie-rejected-by-strict-client", "response of the redirecting handler is rejected by a strict client: "+perr.Error())
 		} else {
 			e.Violation(c, "flash|response-malformed|"+perr.Class, "response of the redirecting handler is rejected by a strict client: "+perr.Error(), detail)
 		}
@@ -1159,7 +1201,7 @@ func flashScript(e *ev.Env, c *ev.Case, spec *flashSpec, reqA []byte) {
 				lenient, haveLenient = []byte(strings.Trim(v, " \t")), true
 				track(jar, attrs, spec.a(), serverNow(rs1[0]))
 			default:
-				k1(e, c, detail, "set-cookie-"+bad, "a user agent does not accept the Set-Cookie line: the messages are not presented")
+				k1(e, c, detail, k1Class()+"@set-cookie-"+bad, "a user agent does not accept the Set-Cookie line: the messages are not presented")
 				lenient, haveLenient = lenientFlash(out1)
 				if haveLenient {
 					track(jar, attrs, spec.a(), serverNow(rs1[0]))
@@ -1211,7 +1253,11 @@ func flashScript(e *ev.Env, c *ev.Case, spec *flashSpec, reqA []byte) {
 				e.Stat("refused_cookie_has_ctl", 1)
 			}
 			if hasCTL(cookie) || k1Class() != "" {
-				k1(e, c, detail, "request-refused-by-server", "the server answers 400 to the request that presents the cookie it issued itself")
+				cls := k1Class()
+				if cls == "" {
+					cls = "control-byte"
+				}
+				k1(e, c, detail, cls+"@request-refused-by-server", "the server answers 400 to the request that presents the cookie it issued itself")
 			} else {
 				e.Violation(c, "flash|request-refused-by-server", "the server answers 400 to the request that presents the cookie it issued itself (no control byte in it)", detail)
 			}
@@ -1224,7 +1270,7 @@ func flashScript(e *ev.Env, c *ev.Case, spec *flashSpec, reqA []byte) {
 				// the bytes of the encoding explain it: the known raw-MessagePack finding
 				detail["why"] = why
 				if cls := k1Class(); cls != "" && client != "strict" {
-					k1(e, c, detail, "messages-differ-"+cls, "handler B does not see what was attached ("+client+" client): "+why)
+					k1(e, c, detail, cls+"@messages-differ", "handler B does not see what was attached ("+client+" client): "+why)
 					what = "raw-bytes"
 				} else {
 					e.Violation(c, "flash|messages-differ|"+what, "handler B does not see what was attached ("+client+" client): "+why, detail)
